@@ -53,6 +53,7 @@ type FuncSpec struct {
 	GhostInit map[string][]*Clause // assumptions about a freshly allocated local (by source name)
 	LocalChanInv map[string]*Clause // channel invariant of a local channel variable (by source name)
 	EntryGhost [][2]*Clause    // ghost bindings established at function entry: loc = value
+	Reveals []string // opaque spec fns whose bodies are visible while verifying this function
 	Sites   []string // callback role sites
 	Notes   []string
 	File    string
@@ -66,6 +67,7 @@ type SpecFn struct {
 	Body    *Clause
 	Rec     bool
 	Uninterp bool
+	Opaque   bool // body visible only in functions that `reveals` it; an uninterpreted symbol elsewhere
 	GoBody   string // Go counterpart of an uninterpreted spec fn, used only by replays
 }
 
@@ -381,6 +383,10 @@ func (s *Spec) load(path string, prefix string) error {
 				sf.Rec = true
 				sf.Name = strings.TrimSpace(sf.Name[4:])
 			}
+			if strings.HasPrefix(sf.Name, "opaque ") {
+				sf.Opaque = true
+				sf.Name = strings.TrimSpace(sf.Name[7:])
+			}
 			for _, p := range splitNames(head[op+1 : cp]) {
 				fs := strings.SplitN(p, " ", 2)
 				if len(fs) != 2 {
@@ -591,6 +597,8 @@ func (s *Spec) load(path string, prefix string) error {
 			cur.Derive = rest
 		case "returns-chan":
 			cur.ReturnsChan = rest
+		case "reveals":
+			cur.Reveals = append(cur.Reveals, splitNames(rest)...)
 		case "oncall":
 			// oncall LABEL : EXPR   (evaluated in the caller's scope right before the call)
 			i := strings.Index(rest, " : ")
